@@ -42,7 +42,11 @@ def main(argv=None):
     ap.add_argument("--budget", type=float, default=None, help="override the wall-clock budget (s)")
     a = ap.parse_args(argv)
     try:
+        import warnings
+
         import numpy as np
+        warnings.simplefilter("ignore")
+        np.seterr(all="ignore")
         import props
 
         if a.replay:
